@@ -1,6 +1,6 @@
 (* C19 — property theorems only (level: other/partial: the formatter itself is not modelled; the
    property is decided per input on the real formatter with these relations). *)
-From SwayV Require Import Base.Util C16.Model C19.Model C19.Spec C19.Proofs C19.Judge.
+From SwayV Require Import Base.Util C16.Model C16.Judge C19.Model C19.Spec C19.Proofs C19.Comments C19.CommentsProofs C19.Judge.
 Open Scope N_scope.
 
 Theorem C19_tok_equiv_equivalence :
@@ -30,6 +30,33 @@ Theorem C19_decision_sound : forall sin tin sout tout,
   preservedb sin tin sout tout = (true, true) -> preserved sin tin sout tout.
 Proof. exact preservedb_sound. Qed.
 Print Assumptions C19_decision_sound.
+
+(* CommentMap::from_src + comments_between as used by write_comments: if the printers query the
+   consecutive ranges (a0,a1), (a1,a2), ..., (a_{n-1},a_n) with a0 <= a1 <= ... <= a_n, the map is
+   well-formed (non-empty, disjoint, ordered spans), every comment lies in [a0, a_n] and no range
+   point falls strictly inside a comment, then the concatenated query results are exactly the map:
+   every comment is emitted exactly once, in order. *)
+Theorem C19_comments_partition : forall rest a0 a1 cm,
+  cm_wf cm -> sorted_pts (a0 :: a1 :: rest) -> covered cm a0 (last_pt a1 rest) ->
+  no_straddle cm (a0 :: a1 :: rest) -> emitted cm (a0 :: a1 :: rest) = cm.
+Proof. exact comments_partition_gen. Qed.
+Print Assumptions C19_comments_partition.
+
+(* what the comment-map judgement 0 certifies about the REAL CommentMap of an input *)
+Theorem C19_cmap_judge_sound : forall tin real,
+  cmap_code tin real = 0 -> real = comment_map tin /\ cm_wf (comment_map tin).
+Proof.
+  intros tin real. unfold cmap_code.
+  destruct (cm_eqb _ _) eqn:E; cbn [negb]; [|discriminate].
+  destruct (cm_wfb _) eqn:W; [|discriminate]. intros _.
+  apply cm_eqb_eq in E. split; [symmetry; exact E|]. rewrite E. apply cm_wfb_sound. exact W.
+Qed.
+Print Assumptions C19_cmap_judge_sound.
+
+Example C19_example_partition :
+  emitted [((3,8),0); ((10,12),2); ((20,30),1)] [0; 9; 9; 15; 40] = [((3,8),0); ((10,12),2); ((20,30),1)] /\
+  emitted [((3,8),0); ((10,12),2); ((20,30),1)] [0; 11; 40] = [((3,8),0); ((20,30),1)].   (* 11 straddles: lost *)
+Proof. vm_compute. split; reflexivity. Qed.
 
 (* Non-vacuity: trailing comma, sorted single-brace import, escaped literal by value. *)
 Example C19_example_equiv :
